@@ -49,6 +49,7 @@ except ImportError as imp_err:
 
 from rich import box
 from rich.console import Console
+from rich.markup import escape
 from rich.table import Table
 from rich.theme import Theme
 
@@ -218,7 +219,8 @@ class FlatStatusRenderer(BaseStatusRenderer):
 
         self._status_table = Table()
         if study_title:
-            self._status_table.title = "Study: {}".format(study_title)
+            self._status_table.title = "Study: {}".format(
+                escape(str(study_title)))
 
         # Apply any filters: TODO
 
@@ -240,7 +242,7 @@ class FlatStatusRenderer(BaseStatusRenderer):
                 else:
                     col_style = 'col_style_2'
 
-            self._status_table.add_column(col,
+            self._status_table.add_column(escape(col),
                                           style=col_style,
                                           overflow="fold")
 
@@ -254,7 +256,7 @@ class FlatStatusRenderer(BaseStatusRenderer):
                 row_style = 'none'
 
             self._status_table.add_row(
-                *['{}'.format(self._status_data[key][row])
+                *[escape('{}'.format(self._status_data[key][row]))
                   for key in cols],
                 style=row_style
             )
@@ -315,7 +317,8 @@ class NarrowStatusRenderer(BaseStatusRenderer):
 
         self._status_table = Table()
         if study_title:
-            self._status_table.title = "Study: {}".format(study_title)
+            self._status_table.title = "Study: {}".format(
+                escape(str(study_title)))
 
         # Apply any filters: TODO
 
@@ -323,7 +326,8 @@ class NarrowStatusRenderer(BaseStatusRenderer):
         # single column table
         self._status_table = Table.grid(padding=0)
         if study_title:
-            self._status_table.title = "STUDY: {}".format(study_title)
+            self._status_table.title = "STUDY: {}".format(
+                escape(str(study_title)))
         self._status_table.box = box.HEAVY
         self._status_table.show_lines = True
         self._status_table.show_edge = False
@@ -358,10 +362,10 @@ class NarrowStatusRenderer(BaseStatusRenderer):
 
             # Top level contains step name and workspace name, full table width
             step_table.add_row("STEP:",
-                               self._status_data['Step Name'][row],
+                               escape(self._status_data['Step Name'][row]),
                                style='Step Name')
             step_table.add_row("WORKSPACE:",
-                               self._status_data['Workspace'][row],
+                               escape(self._status_data['Workspace'][row]),
                                style='Workspace')
 
             step_table.add_row("", "")  # just a little whitespace
@@ -387,7 +391,7 @@ class NarrowStatusRenderer(BaseStatusRenderer):
                         row_style = 'row_style'
 
                 step_info.add_row(detail_row,
-                                  self._status_data[detail_row][row],
+                                  escape(self._status_data[detail_row][row]),
                                   style=row_style)
 
             step_details.add_column("scheduler")
@@ -399,7 +403,7 @@ class NarrowStatusRenderer(BaseStatusRenderer):
             step_sched.add_column("val")
             for nom_row_cnt, sched_row in enumerate(sched_rows):
                 step_sched.add_row(sched_row,
-                                   self._status_data[sched_row][row],
+                                   escape(self._status_data[sched_row][row]),
                                    style='row_style')  # key in status theme
 
             # Info and scheduler sub tables are in the same column/row
@@ -435,7 +439,8 @@ class NarrowStatusRenderer(BaseStatusRenderer):
                     this_row = []
                     for param_str in param_list[param_idx:param_idx+2]:
                         if param_str:
-                            this_row.extend(param_str.split(':'))
+                            this_row.extend(
+                                escape(_) for _ in param_str.split(':'))
                         else:
                             this_row.extend(["", ""])
 
